@@ -185,6 +185,10 @@ fn catalogue() -> Vec<PairCase> {
         PairCase { name: "suite-pattern-1", a: v(&[0, 0, 1, 2]), b: v(&[0, 1, 1, 2]), max_l: 3, big_l: vec![] },
         PairCase { name: "alternating", a: v(&[0, 1, 0, 1]), b: v(&[1, 0, 1, 0]), max_l: 3, big_l: vec![] },
         PairCase { name: "repeat-block", a: v(&[0, 0, 0, 1]), b: v(&[0, 1, 1, 1]), max_l: 3, big_l: vec![] },
+        // a run of equal elements followed, after another element, by the same element again (occurrence numbers must keep counting)
+        PairCase { name: "run-then-return", a: v(&[0, 0, 1, 0]), b: v(&[0, 0, 1]), max_l: 3, big_l: vec![] },
+        PairCase { name: "run-then-return-2", a: v(&[0, 0, 1, 0, 2]), b: v(&[0, 1, 0, 0, 2]), max_l: 3, big_l: vec![] },
+        PairCase { name: "two-runs-return", a: v(&[0, 0, 1, 1, 0, 1]), b: v(&[0, 1, 0, 1, 0, 1]), max_l: 3, big_l: vec![] },
         PairCase { name: "transposition", a: v(&[0, 1, 2, 3]), b: v(&[0, 2, 1, 3]), max_l: 3, big_l: vec![] },
         PairCase { name: "suite-pattern-2", a: v(&[0, 1, 2, 3, 4, 0, 1, 2, 3, 2, 4, 5]), b: v(&[0, 1, 2, 6, 4, 0, 7, 1, 2, 3, 2, 4, 5]), max_l: 2, big_l: vec![] },
         PairCase { name: "prefix-of", a: v(&[0, 1, 2]), b: v(&[0, 1, 2, 3, 4, 5]), max_l: 3, big_l: vec![] },
